@@ -141,13 +141,13 @@ def obligations(tier):
     obs = []
     if tier == "quick":
         cfgs = [("L", "create", 0), ("L", "append", 0), ("L", "append", 2), ("L", "append2", 1), ("L", "delete", 2), ("L", "replace", 2),
-                ("L", "expire", 3), ("L", "delsnap_cur", 2), ("L", "delsnap_old", 2), ("L", "gc", 2),
+                ("L", "expire", 3), ("L", "append_expire", 3), ("L", "delsnap_cur", 2), ("L", "delsnap_old", 2), ("L", "gc", 2),
                 ("S", "create", 0), ("S", "append", 1), ("S", "delete", 2), ("S", "gc", 2)]
         T = 300
     else:
         cfgs = []
         for rig in ("L", "S"):
-            for op in ("create", "append", "append2", "delete", "replace", "expire", "delsnap_cur", "delsnap_old", "gc"):
+            for op in ("create", "append", "append2", "delete", "replace", "expire", "append_expire", "delsnap_cur", "delsnap_old", "gc"):
                 for n in sorted({min_prior(op), min(3, min_prior(op) + 1), 3}) if op != "create" else [0]:
                     cfgs.append((rig, op, n))
         T = 1200
